@@ -1,6 +1,6 @@
 (* C12 — imported keys and points are validated on every path.
    This file contains only the final statements; every proof is one [exact]. *)
-From Coq Require Import ZArith List Bool.
+From Coq Require Import ZArith List Bool Znumtheory.
 From GmVerif Require Import Ec.Num Ec.CurveSpec Ec.Mont Ec.MontProofs Ec.Jacobian Ec.JacobianProofs
   Ec.Point Ec.PointProofs.
 Import ListNotations.
@@ -79,6 +79,48 @@ Theorem C12_from_octets_old_refuted :
   point_from_octets_old ZOps Z.ltb KpZ pin0 0 0 0 0 = None.
 Proof. exact from_octets_old_refuted. Qed.
 Print Assumptions C12_from_octets_old_refuted.
+
+(* compressed points: sm2_z256_point_from_x_bytes succeeds only with x < p and a point on the curve *)
+Theorem C12_from_x_bytes_sound : forall Pin x odd P, 0 <= x ->
+  point_from_x_bytes ZOps Z.ltb KpZ Pin x odd = (1, P) ->
+  x < c_p /\ exists Y, okp Y /\ P = (vto_mont ZOps Z.ltb KpZ x, Y, knegm KpZ) /\
+    (decp Y * decp Y) mod c_p = (x * x * x + sm2_a * x + sm2_b) mod c_p.
+Proof. exact from_x_bytes_sound. Qed.
+Print Assumptions C12_from_x_bytes_sound.
+
+(* compressing a valid point and decompressing the result returns the same point; premises:
+   p prime (no zero divisors => square roots unique up to sign) and Fermat's little theorem
+   for p (a consequence of primality absent from the standard library); p = 3 (mod 4) is computed *)
+Theorem C12_compress_decompress_partial :
+  prime c_p -> (forall x, 0 < x < c_p -> x ^ (c_p - 1) mod c_p = 1) ->
+  forall Pin x y, 0 <= x < c_p -> 0 <= y < c_p ->
+  (y * y) mod c_p = (x * x * x + sm2_a * x + sm2_b) mod c_p ->
+  let P := (vto_mont ZOps Z.ltb KpZ x, vto_mont ZOps Z.ltb KpZ y, knegm KpZ) in
+  let prefix := if y mod 2 =? 1 then 3 else 2 in
+  point_to_compressed ZOps Z.ltb KpZ P = Some (prefix, x) /\
+  point_from_octets ZOps Z.ltb KpZ Pin 33 prefix x 0 = Some (1, P).
+Proof. exact compress_decompress_partial. Qed.
+Print Assumptions C12_compress_decompress_partial.
+
+(* private-key containers: sm2_private_key_from_der compares the recomputed [d]G with the embedded
+   public key through sm2_z256_point_equ; acceptance implies equal affine points (invertibility of
+   Z follows from primality and Z <> 0: explicit premise) *)
+Theorem C12_point_equ_sound : forall X1 Y1 Z1 X2 Y2 Z2,
+  okp X1 -> okp Y1 -> okp Z1 -> okp X2 -> okp Y2 -> okp Z2 ->
+  point_equ Z FpZ (X1, Y1, Z1) (X2, Y2, Z2) = true ->
+  Zdiv.eqm c_p (decp X1 * (decp Z2 * decp Z2)) (decp X2 * (decp Z1 * decp Z1)) /\
+  Zdiv.eqm c_p (decp Y1 * (decp Z2 * decp Z2 * decp Z2)) (decp Y2 * (decp Z1 * decp Z1 * decp Z1)).
+Proof. exact point_equ_sound. Qed.
+Print Assumptions C12_point_equ_sound.
+
+Theorem C12_mismatched_pub_rejected_partial : forall X1 Y1 Z1 x1 y1 x2 y2 zi,
+  jrepr c_p Z okp decp (X1, Y1, Z1) x1 y1 ->
+  0 <= x2 < c_p -> 0 <= y2 < c_p ->
+  Zdiv.eqm c_p (decp Z1 * zi) 1 ->
+  point_equ Z FpZ (X1, Y1, Z1) (vto_mont ZOps Z.ltb KpZ x2, vto_mont ZOps Z.ltb KpZ y2, knegm KpZ) = true ->
+  x1 mod c_p = x2 /\ y1 mod c_p = y2.
+Proof. exact mismatched_pub_rejected_partial. Qed.
+Print Assumptions C12_mismatched_pub_rejected_partial.
 
 (* witness about the old compression: it wrote y where x belongs *)
 Theorem C12_compress_old_refuted :
